@@ -607,12 +607,17 @@ func TestVerif_C06_monitor(t *testing.T) {
 	for i, p := range runs {
 		verdict := ans[i]
 		race := false
+		badAt := -1
 		if k, ok := tolIdx[i]; ok {
 			s.Count("strict:" + verdict)
 			if tol[k] == "ok" {
 				race = true
 			} else {
-				verdict = tol[k] // what remains once the race is discounted
+				verdict = tol[k]                                    // what remains once the race is discounted
+				if at := strings.LastIndex(verdict, "@"); at >= 0 { // "@<index of the rejected event>"
+					fmt.Sscan(verdict[at+1:], &badAt)
+					verdict = verdict[:at]
+				}
 			}
 		}
 		data := 0
@@ -663,7 +668,23 @@ func TestVerif_C06_monitor(t *testing.T) {
 		if d := os.Getenv("VERIF_C06_DUMP"); d != "" && !ok { // development aid
 			os.WriteFile(fmt.Sprintf("%s/hist-%d.txt", d, i), []byte(strings.Join(p.res.history, ";")), 0o644)
 		}
-		if !ok {
+		if !ok && badAt >= 0 {
+			lo := badAt - 150
+			if lo < 0 {
+				lo = 0
+			}
+			detail += fmt.Sprintf(" rejected event #%d; events %d..%d: %s", badAt, lo, badAt, strings.Join(p.res.history[lo:badAt+1], ";"))
+			var ctl []string // every SETTINGS / ack / new stream / reset up to there
+			for _, e := range p.res.history[:badAt+1] {
+				if strings.HasPrefix(e, "<s") || e == "A" || strings.HasPrefix(e, "H") || strings.HasPrefix(e, "R") || strings.HasPrefix(e, "<r") {
+					ctl = append(ctl, e)
+				}
+			}
+			if len(ctl) > 400 {
+				ctl = ctl[len(ctl)-400:]
+			}
+			detail += " control: " + strings.Join(ctl, ";")
+		} else if !ok {
 			h := strings.Join(p.res.history, ";")
 			if len(h) > 6000 {
 				h = h[:3000] + " … " + h[len(h)-3000:]
